@@ -52,6 +52,40 @@ def make(rng, entry, charset='E', nfaults=None, multi=None, alphabet=V.PLAIN, fa
             elif len(s['vals']) > 1:
                 s['vals'][1] = s['vals'][1][:-1] + ('7' if s['vals'][1][-1:] != '7' else '8')
             tfaults.append((i, k))
+    if trailer_faults and rng.random() < 0.15:
+        # a control number reused within its scope: a later set takes the ST02/SE02 of an earlier set of the same group
+        groups = source_groups(doc)
+        cands = [g_ for g_ in groups if len(g_['sets']) > 1]
+        if cands:
+            g_ = rng.choice(cands)
+            j = rng.randrange(1, len(g_['sets']))
+            first, later = g_['sets'][rng.randrange(0, j)], g_['sets'][j]
+            ctl = first['st']['vals'][1]
+            later['st']['vals'][1] = ctl
+            if later['se'] is not None and len(later['se']['vals']) > 1:
+                later['se']['vals'][1] = ctl
+            tfaults.append((-1, 'dup_st02'))
+    if trailer_faults and rng.random() < 0.1:
+        # an element error on the group header itself (impossible GS04 date / over-long GS02)
+        gss = [s_ for s_ in doc if s_['id'] == 'GS' and len(s_['vals']) >= 8]
+        if gss:
+            s_ = rng.choice(gss)
+            if rng.random() < 0.5:
+                s_['vals'][3] = '20041301'
+            else:
+                s_['vals'][1] = 'SENDERGS90123456'
+            tfaults.append((-1, 'gs_element_error'))
+    if trailer_faults and rng.random() < 0.12:
+        # an element error on the set header/trailer themselves (ST02/SE02 too long or with an invalid character), identical in
+        # both so that the control numbers still match
+        groups = source_groups(doc)
+        sets = [s_ for g_ in groups for s_ in g_['sets'] if s_['se'] is not None and len(s_['se']['vals']) > 1]
+        if sets:
+            s_ = rng.choice(sets)
+            bad = rng.choice(['1234567890', 'AB\x7f1', '12'])
+            s_['st']['vals'][1] = bad
+            s_['se']['vals'][1] = bad
+            tfaults.append((-1, 'st02_element_error'))
     return {'doc': doc, 'applied': applied, 'tfaults': tfaults, 'shape': list(g.shape), 'entry': entry}
 
 
